@@ -454,6 +454,20 @@ def run(plan, stats):
             if diff is not None:
                 viols.append(Violation(PROP, 'refine', 'restart:' + classify(diff, real, ref),
                                        {'model': mi, 'diff': diff, 'real_error': real.error, 'ref_error': ref.error}))
+            # the same model executed again by an embedder that re-uses its options object (under a finite budget the
+            # run fits in): identical results for identical globals
+            if diff is None and real.error is None and real.count and plan.get('seed', 0) % 2 == 0:
+                lim2 = real.count + 2
+                first = run_real(p, limit=lim2, sim_options=True, model=models[mi], max_starts=MAX_STARTS)
+                second = run_real(p, limit=lim2, sim_options=True, model=models[mi], max_starts=MAX_STARTS,
+                                  reuse_options=first.extra['options'])
+                stats.c['evaluations'] += 2
+                stats.probes['options_object_reused_for_a_second_execution'] += 1
+                dig.append(second.summary())
+                if first.summary() == real.summary() and second.summary() != first.summary():
+                    viols.append(Violation(PROP, 'repeat', 'second-execution-with-reused-options-differs',
+                                           {'model': mi, 'limit': lim2, 'statements': real.count,
+                                            'second_error': second.error}))
             if models[mi] != snapshots[mi] and immut['bad'] is None:
                 viols.append(Violation(PROP, 'immutable', 'model-modified-by-execution', {'model': mi, 'when': 'restart'}))
     sample = None
